@@ -209,3 +209,84 @@ fn front_inner(text: &str, lits: &[String]) -> String {
     }
     out
 }
+
+// ---------------------------------------------------------------------------------------------
+// `pexpr` jobs: the REAL parser's untyped tree of one expression, for the tie with the Gallina
+// model Front/ParseExpr.v.  `(pexpr id (src "<expression text>"))`; the text is wrapped into
+// `pub fn main(zz: u8) -> u8 { let rr = <text>; zz }` and the value of the `let` is printed:
+//   (t) (f) (nu n ty) (ns z ty) (id s) (idx a i) (tup e..) (tupacc e i) (fld e f) (un not|neg e)
+//   (op NAME l r) (call f e..) (if c t e) (cast ty e); anything else: (outside)
+// Result: (tree <sexp>) | (err) | (crash)
+fn uty_sx(t: &garble_lang::token::UnsignedNumType) -> &'static str {
+    use garble_lang::token::UnsignedNumType::*;
+    match t { Usize => "usize", U8 => "u8", U16 => "u16", U32 => "u32", U64 => "u64", Unspecified => "uunspec" }
+}
+fn sty_sx(t: &garble_lang::token::SignedNumType) -> &'static str {
+    use garble_lang::token::SignedNumType::*;
+    match t { I8 => "i8", I16 => "i16", I32 => "i32", I64 => "i64", Unspecified => "sunspec" }
+}
+fn uexpr_sx(e: &garble_lang::ast::Expr<()>) -> String {
+    use garble_lang::ast::{ExprEnum, Op, Type, UnaryOp};
+    let list = |es: &Vec<garble_lang::ast::Expr<()>>| es.iter().map(|x| format!(" {}", uexpr_sx(x))).collect::<String>();
+    match &e.inner {
+        ExprEnum::True => "(t)".into(),
+        ExprEnum::False => "(f)".into(),
+        ExprEnum::NumUnsigned(n, t) => format!("(nu {n} {})", uty_sx(t)),
+        ExprEnum::NumSigned(n, t) => format!("(ns {n} {})", sty_sx(t)),
+        ExprEnum::Identifier(s) => format!("(id {s})"),
+        ExprEnum::ArrayAccess(a, i) => format!("(idx {} {})", uexpr_sx(a), uexpr_sx(i)),
+        ExprEnum::TupleLiteral(es) => format!("(tup{})", list(es)),
+        ExprEnum::TupleAccess(x, i) => format!("(tupacc {} {i})", uexpr_sx(x)),
+        ExprEnum::StructAccess(x, f) => format!("(fld {} {f})", uexpr_sx(x)),
+        ExprEnum::UnaryOp(o, x) => format!("(un {} {})", match o { UnaryOp::Not => "not", UnaryOp::Neg => "neg" }, uexpr_sx(x)),
+        ExprEnum::Op(o, l, r) => {
+            let n = match o {
+                Op::Add => "add", Op::Sub => "sub", Op::Mul => "mul", Op::Div => "div", Op::Mod => "mod",
+                Op::BitAnd => "bitand", Op::BitXor => "bitxor", Op::BitOr => "bitor", Op::GreaterThan => "gt",
+                Op::LessThan => "lt", Op::Eq => "eq", Op::NotEq => "noteq", Op::ShiftLeft => "shl", Op::ShiftRight => "shr",
+                Op::ShortCircuitAnd => "and", Op::ShortCircuitOr => "or",
+            };
+            format!("(op {n} {} {})", uexpr_sx(l), uexpr_sx(r))
+        }
+        ExprEnum::FnCall(f, args) => format!("(call {f}{})", list(args)),
+        ExprEnum::If(c, t, x) => format!("(if {} {} {})", uexpr_sx(c), uexpr_sx(t), uexpr_sx(x)),
+        ExprEnum::Cast(ty, x) => {
+            let t = match ty {
+                Type::Bool => "bool".to_string(),
+                Type::Unsigned(u) => uty_sx(u).to_string(),
+                Type::Signed(s) => sty_sx(s).to_string(),
+                Type::UntypedTopLevelDefinition(n, _) => format!("(named {n})"),
+                _ => return "(outside)".into(),
+            };
+            format!("(cast {t} {})", uexpr_sx(x))
+        }
+        _ => "(outside)".into(),
+    }
+}
+
+pub fn job_pexpr(job: &Sexp) -> String {
+    let text = job.field("src").args()[0].text();
+    let src = format!("pub fn main(zz: u8) -> u8 {{ let rr = {text}; zz }}");
+    let r = catch_unwind(AssertUnwindSafe(|| {
+        let toks = match garble_lang::scan::scan(&src) {
+            Ok(t) => t,
+            Err(_) => return "(err)".to_string(),
+        };
+        let prg = match toks.parse() {
+            Ok(p) => p,
+            Err(_) => return "(err)".to_string(),
+        };
+        let Some(main) = prg.fn_defs.get("main") else { return "(err)".to_string() };
+        if main.body.len() != 2 {
+            return "(err)".to_string();
+        }
+        match &main.body[0].inner {
+            garble_lang::ast::StmtEnum::Let(_, _, e) => {
+                let s = uexpr_sx(e);
+                if s.contains("(outside)") { "(outside)".to_string() } else { format!("(tree {s})") }
+            }
+            _ => "(err)".to_string(),
+        }
+    }));
+    r.unwrap_or_else(|_| "(crash)".to_string())
+}
